@@ -447,6 +447,20 @@ theorem step_frame_heap {w w' : World} {caps : Nat → Nat} {op : WOp} (hg : GRe
       intro k j hne
       rw [e] at hne
       exact Or.inl (hh k j hne)
+  | lend bs => simp [World.step, World.addExt] at h; subst h; exact heap_same_frame rfl
+  | pushAt i b off len =>
+    simp only [World.step] at h
+    split at h
+    · rcases push_cases h with h | h
+      · intro k j hne
+        exact Or.inl (pushCopy_heap h w.HasSlice (fun v c hv hc => hbelow i v c hv hc) hlt k j hne)
+      · exact heap_same_frame (pushBorrowed_heap h)
+    · simp at h
+  | pushBorrowedAt i b off len =>
+    simp only [World.step] at h
+    split at h
+    · exact heap_same_frame (pushBorrowed_heap h)
+    · simp at h
 
 theorem exts_same {w w' : World} (e : w'.exts = w.exts) : ∃ t, w'.exts = w.exts ++ t := ⟨[], by simp [e]⟩
 
@@ -671,6 +685,17 @@ theorem step_exts {w w' : World} {op : WOp} (h : w.step op = some w') : ∃ t, w
       simp only [hr] at h
       obtain ⟨hp, nx, rfl⟩ := readN_world hr
       cases res <;> (simp at h; subst h; exact exts_same rfl)
+  | lend bs => simp [World.step, World.addExt] at h; subst h; exact ⟨[bs], rfl⟩
+  | pushAt i b off len =>
+    simp only [World.step] at h
+    split at h
+    · exact exts_same (push_exts h)
+    · simp at h
+  | pushBorrowedAt i b off len =>
+    simp only [World.step] at h
+    split at h
+    · exact exts_same (pushBorrowed_exts h)
+    · simp at h
 
 /-- The bytes a slice reads through the world: unchanged by a step that writes only above it (and keeps
 its caller buffer). -/
